@@ -283,6 +283,8 @@ func cacheable(s Spec, v int, err error) bool {
 		return v == 1
 	case "err":
 		return err != nil
+	case "v1|err":
+		return v == 1 || err != nil
 	}
 	return err == nil
 }
